@@ -1920,6 +1920,20 @@ def str_split1(eng, e, sep, right):
 
 def str_split(eng, e, args, kw):
     """s.split(sep): sequence of the maximal sep-free pieces (sep a single concrete character)."""
+    if not args and not kw:
+        # s.split(): the maximal runs of non-blank characters, in order.  Stated: the words are not empty, contain no blank, are
+        # substrings of s, and the first one starts s when s does not start with a blank (an under-specification)
+        sq = TSeq(TStr)
+        r = eng.fresh(sq, 'words')
+        n = sq.len(r)
+        i = z3.FreshInt('wi')
+        eng.assume(n >= 0)
+        eng.assume(z3.ForAll([i], z3.Implies(z3.And(0 <= i, i < n), z3.And(z3.Length(sq.at(r, i)) > 0, z3.Contains(e, sq.at(r, i)),
+                                                                         z3.Not(z3.Contains(sq.at(r, i), z3.StringVal(' ')))))))
+        eng.assume(z3.Implies(z3.And(z3.Length(e) > 0, z3.Not(z3.PrefixOf(z3.StringVal(' '), e))), n >= 1))
+        eng.assume(z3.Implies(z3.And(n > 0, z3.Not(z3.PrefixOf(z3.StringVal(' '), e))), z3.PrefixOf(sq.at(r, 0), e)))
+        eng.assume(z3.Implies(z3.And(z3.Length(e) > 0, z3.Not(z3.Contains(e, z3.StringVal(' ')))), z3.And(n == 1, sq.at(r, 0) == e)))
+        return Box(sq, r)
     if len(args) != 1 or not isinstance(args[0], str) or len(args[0]) != 1:
         raise EngineError('split needs one concrete single-character separator')
     sep = z3.StringVal(args[0])
